@@ -112,6 +112,7 @@ NOT_BUILT_REASON = "check not built yet in this session (see DESIGN.md §10 for 
 
 # sentences appended to the text of a check (extensions made after the fourth round of seeded changes)
 SIZE_LADDER = " SIZE LADDER: the same clauses on configurations beyond the implementation's capacity boundaries - more than 6 loops (inline 6x6 matrix storage), more than 8 edges, more than 64 signature entries (polygons to 10 edges, bananas and flowers to 8 loops, a 13-edge 5-loop graph; thorough: 12 edges, 9 loops, a 17-edge 4-loop graph) on a fixed sector subset."
+OFFSET = " In addition to the basis orbit a loop-momentum offset routing is explored (every edge that carries a loop momentum, self-loops included, gets a non-zero shift)."
 INPLACE = " IN-PLACE HISTORIES: on a fresh thread a different sampler is sampled, its memory slot is overwritten by the configuration under test, which is then sampled and judged by the same clauses (state keyed on an address is visible)."
 UNITS = " KINEMATIC UNITS: every 9th configuration again with all momenta and masses scaled by 2^-30 and by 2^24."
 FAMILY5 = " The family also contains: every assignment of two propagator powers (3/4, 3/2) to the edges of all graphs with up to three edges and of the box; externals listed once per leg; every 9th massive configuration with signed (negative) mass values. On the default point of every sector the other combinations of print_debug_info and matrix_stability_test = +inf are executed and judged as well."
@@ -119,7 +120,7 @@ EXTRA = {
     "C12": " SUPPLEMENTARY (sampling of schedules, not part of the exhaustive claim): four free-running OS threads draw the Gamma variate for samplers of different dod in turn, every draw judged by the binding clause.",
     "C20": " from_vec is also given Vecs of exactly D elements with spare capacity, grown by push, and truncated.",
     "C01": SIZE_LADDER + UNITS + " Routings with signature entries of magnitude 2 (unimodular shears applied once and twice) and a reversed loop at the default point of every explored sector; signed masses; weight patterns; externals listed once per leg.",
-    "C02": SIZE_LADDER + INPLACE + UNITS + FAMILY5,
+    "C02": SIZE_LADDER + INPLACE + UNITS + FAMILY5 + OFFSET,
     "C03": " Larger shapes (cycle, path, star, multi-edge, self-loops, two components, K5 walk) with 5..10 edges (thorough: 12) in six (D, mass, weight) settings incl. odd D*L and pairwise different weights are judged by the same clauses.",
     "C04": " Larger shapes (cycle, path, star, multi-edge, self-loops, two components, K5 walk) with 5..10 edges (thorough: 12) in six (D, mass, weight) settings incl. odd D*L and pairwise different weights are judged by the same clauses.",
     "C05": " Larger shapes with 5..10 edges (thorough: 12) in six (D, mass, weight) settings are classified by the same exact oracle.",
@@ -127,12 +128,12 @@ EXTRA = {
     "C07": SIZE_LADDER + INPLACE + UNITS + FAMILY5,
     "C08": SIZE_LADDER + INPLACE + UNITS + FAMILY5,
     "C09": SIZE_LADDER + INPLACE + UNITS + FAMILY5,
-    "C10": SIZE_LADDER + INPLACE + UNITS + " WIDE SCALAR: on 2..4-loop bananas the whole sampler runs in double-double arithmetic and the quadratic-form identity of the returned momenta must hold to 2^-84*cond (a detour through f64 leaves 1e-16)." + FAMILY5,
+    "C10": SIZE_LADDER + INPLACE + UNITS + " WIDE SCALAR: on 2..4-loop bananas the whole sampler runs in double-double arithmetic and the quadratic-form identity of the returned momenta must hold to 2^-84*cond (a detour through f64 leaves 1e-16)." + FAMILY5 + OFFSET,
     "C11": SIZE_LADDER + INPLACE + UNITS + FAMILY5,
     "C13": INPLACE + " On the default point of every sector the other combinations of print_debug_info and matrix_stability_test = +inf are executed and judged as well.",
     "C14": SIZE_LADDER + " UNDERFLOW ANSWERS: every xi coordinate also takes 1e-300, 2^-1074 and 0 (the running product of the parameters becomes exactly zero), alone and with one more deviation: the remaining coordinates must still be read in their roles. A slice of get_dimension()-1 coordinates must not be sampled successfully.",
     "C16": " POSITION ALPHABET: unit matrices of dimension 2..8 with, at every diagonal position, an indefinite 2x2 block, a semi-definite one or a 1e-310 entry (the inverse overflows) under all tolerances; bordered, balanced-pivot and graded-block families up to 8x8; the evaluation bound counts only non-zero products. The evidence reports, per family, the exact distance in units of the slack (decisive where > 1). Two relations between verdicts need no numerical oracle: a matrix that is ZeroDet without the stability test is ZeroDet with it, and the verdict with print_debug_info = return_metadata = true equals the quiet verdict.",
-    "C17": " The in-place rebuild operation also drives the replacement sampler (different number of draws) through generate_sample_from_rng. Further operations: sampling with the other mass pattern (None <-> Some(m), signed) and generate_sample_from_rng under a stability test that always fails (exactly get_dimension() draws, the error of the x-space entry). SUPPLEMENTARY (sampling of schedules, not part of the exhaustive claim): four free-running OS threads sample three samplers of different dod in turn and compare with the single-threaded reference.",
+    "C17": " The in-place rebuild operation also drives the replacement sampler (different number of draws) through generate_sample_from_rng. Further operations: sampling with the other mass pattern (None <-> Some(m), signed) and generate_sample_from_rng under a stability test that always fails (exactly get_dimension() draws, the error of the x-space entry); a second sampler of the same graph with its signature rows rotated over the edges. SUPPLEMENTARY (sampling of schedules, not part of the exhaustive claim): four free-running OS threads sample three samplers of different dod in turn and compare with the single-threaded reference.",
     "C18": SIZE_LADDER + " Loop signatures multiplied by 200, -129, 70000 and -2^33 (entries beyond i8/i16/i32) are round-tripped through all three formats and sampled.",
     "C19": SIZE_LADDER + " In the double-double end-to-end run every Gaussian component is compared with an independent double-double Box-Muller transform of its pair (own ln, sqrt, sin, cos, 107-bit pi) to 2^-90.",
 }
